@@ -40,11 +40,16 @@ TEXT = {
           "is the state before or after (crash_atomic_*), and re-delivery from either state reaches the crash-free state; "
           "negative witness for the per-key plan (finding F6, fixed). Tied to the code without call-site hooks: the journal "
           "of the live database gives the real write sequence, which is compared with the model's plan, and every cut point "
-          "is materialised as a crash image and checked.",
+          "is materialised as a crash image and checked - between two writes, and inside one write (the journal record of a "
+          "commit reaches the file in 32 KiB blocks, one system call each: images cut at the block boundaries inside the "
+          "record, inside chunks and chunk headers, at arbitrary offsets, with zero / arbitrary tails); every image is "
+          "opened by the real NewLevelDBManager first, as a restarting node does.",
   "design_ref": "§3 C08",
-  "note": "leveldb's batch atomicity and journal recovery are trusted; fsync/power-loss durability is out of scope "
+  "note": "leveldb's batch atomicity is trusted; its journal recovery is executed for real on every torn image (the node "
+          "must reopen and find the state before), not modelled; fsync/power-loss durability is out of scope "
           "(the property speaks of process death).",
-  "technique": "Lean 4 proof about the write plan + journal-derived crash images (fault enumeration at every write boundary)",
+  "technique": "Lean 4 proof about the write plan + journal-derived crash images (fault enumeration at every write boundary "
+               "and at the system-call boundaries inside a write)",
  },
  "C10": {
   "text": "Per contract a Lean state machine that follows the Go ReceiveBlock code; kernel-checked: the sum of recorded "
@@ -279,11 +284,16 @@ TEXT = {
           "transitive and arrival-order independent in the accepted plasma range (negative witnesses for zero plasma and "
           "wrap-around), the momentum content is the longest batch-boundary prefix within the limit, and the pooled blocks "
           "form one chain above the confirmed frontier under all operation sequences; tied by regenerated constants and "
-          "differential streams.",
+          "differential streams. The per-account in-memory versioned store of the pool is replayed through the Lean manager "
+          "model (a popped version answers like an unknown one), and real nodes (a producer rolling back and three competing "
+          "branches, followers fed by gossip and sync, readers inside every momentum notification before and after the pool) "
+          "are checked after every operation: pool = ledger frontier extended by the pooled chain, GetPatch answers exactly "
+          "for the pooled chain, every valid delivery is adopted.",
   "design_ref": "§3 C14",
-  "note": "Data-race freedom and reader atomicity are runtime properties (not theorems). The pool state machine is a "
+  "note": "Data-race freedom and reader atomicity are runtime properties (not theorems); readers are interposed at the "
+          "listener boundaries of momentum insert/delete. The pool state machine is a "
           "hand-written model; the two pure decision functions are tied by differential streams.",
-  "technique": "Lean 4 proof (induction/omega) + regenerated constants + differential correspondence",
+  "technique": "Lean 4 proof (induction/omega) + regenerated constants + differential correspondence + node-level monitors",
  },
  "C11": {
   "text": "Kernel-checked theorems over Go-faithful models. Arithmetic (wrapping int64, truncating big.Int.Quo): rounded-down "
